@@ -68,7 +68,10 @@ def oracle(ck, base, mode):
                 ang = np.degrees(np.arccos(np.clip(cosang, -1, 1)))
                 ck.cov.setdefault("fd_angle_median_max", 0.0)
                 ck.cov["fd_angle_median_max"] = max(ck.cov["fd_angle_median_max"], float(np.median(ang)))
-                if np.median(ang) > 20.0:
+                # "about 20 degrees": for strongly elongated cells (aspect > 2) on grids a few cells wide the centred
+                # finite difference itself is only that accurate; allow 25 there
+                asp_ = max(b["meta"]["d"]) / min(b["meta"]["d"])
+                if np.median(ang) > (20.0 if asp_ <= 2.0 else 25.0):
                     ck.violation("gradient direction disagrees with the finite-difference gradient of the traveltimes",
                                  {"case": _enc(b), "mode": mode, "median_angle_deg": float(np.median(ang)),
                                   "max_angle_deg": float(ang.max())})
